@@ -106,9 +106,16 @@ class ScriptedError(Exception):
   pass
 
 
+def _pythia_errors():
+  from vizier._src.pythia import pythia_errors as pe
+  return {n: getattr(pe, n) for n in ('TemporaryPythiaError', 'InactivateStudyError', 'PythiaFallbackError', 'LoadTooLargeError', 'CancelComputeError',
+                                      'PythiaProtocolError', 'VizierDatabaseError') if hasattr(pe, n)}
+
+
 _EXC = {'ValueError': ValueError, 'RuntimeError': RuntimeError, 'KeyError': KeyError,
         'ScriptedError': ScriptedError, 'TypeError': TypeError, 'AssertionError': AssertionError,
         'NotImplementedError': NotImplementedError, 'ZeroDivisionError': ZeroDivisionError}
+_EXC.update(_pythia_errors())      # the error classes the algorithm interface itself documents ("try again later", ...)
 
 
 def param_for(n):
